@@ -227,27 +227,30 @@ func runOne(w world.World, p *world.Plan, img *simenv.Image, kn map[string]bool)
 //
 //go:norace
 func watchdog() {
+	// elapsed time is counted in 200 ms sleeps, not read from time.Now: a plan may mock time.Now
+	const tick = 200 * time.Millisecond
 	last := simcore.LastEventSeq()
-	stuck := time.Now()
-	lastProg, idle := -1, time.Now()
+	stuck := 0
+	lastProg, idle := -1, 0
 	for {
-		time.Sleep(200 * time.Millisecond)
+		time.Sleep(tick)
 		if !simcore.Active() {
 			last = simcore.LastEventSeq()
-			stuck = time.Now()
+			stuck = 0
 			// driver code between scheduler runs (steady setup, final Reset): hooks are inactive there,
 			// so a lock that goom leaked blocks the driver for real. Progress = oracle evaluations +
 			// operations of the plan in progress.
 			r := current
 			if r == nil {
-				lastProg, idle = -1, time.Now()
+				lastProg, idle = -1, 0
 				continue
 			}
 			if prog := r.Checks + r.Ops; prog != lastProg {
-				lastProg, idle = prog, time.Now()
+				lastProg, idle = prog, 0
 				continue
 			}
-			if time.Since(idle) > 40*time.Second {
+			idle++
+			if idle > int(40*time.Second/tick) {
 				buf := make([]byte, 1<<18)
 				buf = buf[:runtime.Stack(buf, true)]
 				r.Stats = simcore.Snapshot()
@@ -263,13 +266,14 @@ func watchdog() {
 			}
 			continue
 		}
-		lastProg, idle = -1, time.Now()
+		lastProg, idle = -1, 0
 		if s := simcore.LastEventSeq(); s != last {
 			last = s
-			stuck = time.Now()
+			stuck = 0
 			continue
 		}
-		if time.Since(stuck) > 30*time.Second {
+		stuck++
+		if stuck > int(30*time.Second/tick) {
 			fmt.Fprintln(os.Stderr, "simnode: WATCHDOG: no scheduler event for 30s (un-hooked real lock or harness bug)")
 			buf := make([]byte, 1<<20)
 			os.Stderr.Write(buf[:runtime.Stack(buf, true)])
